@@ -14,6 +14,9 @@
 (*                               commit order; call = what the driver      *)
 (*                               asked for ("none": the writer acted on    *)
 (*                               its own)                                  *)
+(*   attempt w in out call     - a CAS function that decided to write but   *)
+(*                               lost the race (conflict chains)           *)
+(*   state  l got ts           - GetPartitionState of a running lifecycler *)
 (* An event at time now > clock is preceded by silent Ticks.  A chain is   *)
 (* accepted iff all its events are consumed (Done prints its number).      *)
 (***************************************************************************)
@@ -57,6 +60,18 @@ Consume(e) ==
                            /\ act'.res = e.res
                            /\ e.wrote = (e.res = "ok")
                            /\ IF e.wrote THEN RingNext(e.out) ELSE (parts' = parts /\ owners' = owners)
+      \* a CAS function that ran on `in`, wanted to write `out`, and was then refused by the store because
+      \* another writer committed in between (the writer retries: a later "cas" event): what it decided must be
+      \* an enabled action of the writer on what it read; nothing changes
+      [] e.ev = "attempt" -> /\ RingIs(e.in)
+                             /\ ENABLED (CasAction(e) /\ act'.res = e.res /\ RingNext(e.out))
+                             /\ UNCHANGED vars
+      \* PartitionInstanceLifecycler.GetPartitionState of a running lifecycler: the state (and the time of the
+      \* last change) of its partition in the current ring, "X" (ErrPartitionDoesNotExist) iff it is not there
+      [] e.ev = "state" -> /\ lc[e.l].phase = "running"
+                           /\ e.got = parts[lc[e.l].part].st
+                           /\ e.got # "X" => e.ts = parts[lc[e.l].part].ts
+                           /\ UNCHANGED vars
       [] OTHER -> FALSE
 
 TNext ==
